@@ -39,6 +39,10 @@ func buildC05(tier string, seed int64) *Family {
 		}
 		insts = append(insts, pureInst("H_conc", x, c))
 	}
+	// concurrent use of the regular-expression functions goes through the pattern cache: its
+	// lock discipline (C16's inductive step with the lockset monitor; a read lock does not
+	// protect a write), replayed natively as a multi-goroutine stress under the race detector
+	insts = append(insts, &vm.Instance{ID: "cache: inductive step of loadingCache.get", Harness: "H_cache", Params: map[string]string{}})
 	var can []*vm.Instance
 	for _, x := range []string{"//a", "*[a]", "a = 1"} {
 		c := pureInst("H_conc", x, cfg)
